@@ -2,6 +2,7 @@
    one constructor per real Go function driven by the harness.
    Executable definitions only. *)
 From Verif Require Import Lib.Base Decode.GoSlice Decode.Node Decode.ProofEntries Decode.Quote Decode.KeyFormat Decode.Misc Decode.Cbor Decode.More Decode.StreamDepth Decode.CborValue Gen.DecodeConsts.
+From Verif Require Decode.Conn.
 
 Inductive cin : Type :=
 | CDepth (b : bytes)                      (* Depth.UnmarshalBinary *)
@@ -31,7 +32,8 @@ Inductive cin : Type :=
 | CFrame (stream : bytes) (dec : option N)   (* cbor.MessageReader.Read *)
 | CEnum (table : list (bytes * N)) (text : bytes)   (* an enum UnmarshalText *)
 | CSigstruct (b : bytes)                  (* sigstruct.Verify: only "length accepted" vs "length rejected" *)
-| CStreamDepth (maxstack frame base reads : N).   (* cbor.MessageCodec.Read fed one byte per read, [reads] reads, in a child process with stack limit maxstack: does it die? *)
+| CStreamDepth (maxstack frame base reads : N)   (* cbor.MessageCodec.Read fed one byte per read, [reads] reads, in a child process with stack limit maxstack: does it die? *)
+| CConn (evs : list Conn.ev).                  (* a scripted session with the real protocol.Connection over net.Pipe *)
 
 Inductive cout : Type :=
 | ODepth (r : res (N * N))
@@ -53,7 +55,8 @@ Inductive cout : Type :=
 | OClass (r : res unit)
 | ONum (r : res N)
 | OPb (r : res pbnode)
-| ODies (b : bool).
+| ODies (b : bool)
+| OConn (call_got_response : list bool) (close_returned : bool).
 
 Definition run_case (c : cin) : cout :=
   match c with
@@ -101,6 +104,7 @@ Definition run_case (c : cin) : cout :=
   (* the 4-byte length prefix is read by io.ReadAtLeast, every later read is one Decode activation *)
   | CStreamDepth maxstack frame base reads =>
       ODies (overflows maxstack frame base (trickle_frames (reads - 4)))
+  | CConn evs => let s := Conn.run true evs in OConn (Conn.outcomes s) (Conn.close_returns s)
   end.
 
 Definition pair_eqb {A B} (ea : A -> A -> bool) (eb : B -> B -> bool) (x y : A * B) : bool :=
@@ -137,5 +141,6 @@ Definition cout_eqb (a b : cout) : bool :=
   | ONum x, ONum y => res_eqb N.eqb x y
   | OPb x, OPb y => res_eqb pbnode_eqb x y
   | ODies x, ODies y => Bool.eqb x y
+  | OConn x cx, OConn y cy => list_eqb Bool.eqb x y && Bool.eqb cx cy
   | _, _ => false
   end.
